@@ -5,6 +5,9 @@ real scanner, parser and ast literal decoding):
          intended tree (oracle: Spec.Num semantics through the C02 oracle functions, exact powers)
   mv     expression lists of every shape (single / multi-valued / parenthesised multi-valued) in every position
          (return, arguments, table fields, assignment, local, for-in): number of values vs Spec.Grammar.explistCount
+  badexp corrupted renderings, one token per line: the token golua reports vs Spec.Grammar.firstBad
+  fstat  function statements: every name chain (0..3 fields, with/without `:m`, local, global) × parameter list, run inside
+         a vararg function (self, fixed parameters, select('#', ...)) and as AST (parameter names, HasDots)
   numeral  numeric literals (c02 harness, literal leg) vs Spec.Numeral.literal
   exp    expression trees × spellings (leaves: names, every primary-expression form, numeric literals): golua's AST vs the generator's tree (level A) and vs Model.ParseExp on
          the same token list (level B); the token list itself is re-derived by Spec.Grammar.render in the oracle
@@ -36,7 +39,7 @@ def tree_levels(code):
 
 def run_pairs(ctx, lines):
     """lines of kinds exp / eval / mv / short / long from the harness -> compare with the oracle"""
-    stripped = [l.split("|")[0] if l.startswith(("exp ", "eval ", "mv ")) else l for l in lines]
+    stripped = [l.split("|")[0] if l.startswith(("exp ", "eval ", "mv ", "badexp ")) else l for l in lines]
     exp = common.run_oracle("c12", stripped)
     if len(exp) != len(lines):
         raise common.BuildError("oracle returned %d lines for %d inputs" % (len(exp), len(lines)))
@@ -82,6 +85,18 @@ def run_pairs(ctx, lines):
                               "`return %s` evaluates to %s in golua; the tree %s the grammar assigns to this spelling has the value %s "
                               "(leaves %s)" % (src.decode("latin1"), res, intended, e, parts[2]),
                               "c12 replay evalsrc s%s\nobserved %s\nexpected %s\n" % (srchex, res, e))
+        elif kind == "badexp":
+            res, srchex, mode = parts[-1].split("|")
+            src = bytes.fromhex(srchex)
+            ctx.case("badexp " + srchex + mode, e != "ok")
+            ctx.count("badexp:" + ("accepted" if e == "ok" else "rejected"))
+            if res != e:
+                ctx.violation("badexp " + q(src),
+                              "tokens %s (one per line, %s): golua %s; the first token no expression continues with "
+                              "(Spec.Grammar.firstBad) is %s" % (parts[1], "return <e>" if mode == "c" else "ParseExp",
+                                                                 "accepts" if res == "ok" else "reports token " + res,
+                                                                 "none (it is an expression)" if e == "ok" else "token " + e),
+                              "c12 replay badexp%s s%s\nobserved %s\nexpected %s\n" % (mode, srchex, res, e))
         elif kind == "mv":
             res, cname, form, srchex = parts[-1].split("|")
             ctx.case("mv %s %s %s" % (cname, form, parts[2]), "," in parts[2] or parts[2].startswith("p"))
@@ -116,6 +131,21 @@ def run_mvast(ctx, lines):
             ctx.violation("mvast %s %s" % (form, shape),
                           "AST of %s marks its items %s, expected %s (m = multi-valued node, p = truncating node, s = single)" % (q(src), got, want),
                           "c12 replay chunk ok mvast s%s\nobserved %s\nexpected %s\n" % (srchex, got, want))
+
+
+def run_fstat(ctx, lines):
+    """function statements in every name / parameter form: value when called, and AST of the desugared assignment"""
+    for line in lines:
+        _, want, _, rest = line.split(" ")
+        got, form, srchex = rest.split("|")
+        ctx.case("fstat " + srchex, True)
+        ctx.count("fstat:" + ("ast" if "(" in want else "run"))
+        if got != want:
+            src = bytes.fromhex(srchex)
+            ctx.violation("fstat %s %s" % (form, q(src)),
+                          "function statement form %s (kind/chain length+colon/fixed params/vararg): golua gives %s, the manual's "
+                          "translation `t.a.b.m = function (self, params) body end` gives %s" % (form, got, want),
+                          "c12 replay %s s%s\nobserved %s\nexpected %s\n" % ("fstatast" if "(" in want else "run", srchex, got, want))
 
 
 def run_literals(ctx):
@@ -155,7 +185,9 @@ def run_chunks(ctx, lines):
         if res != want:
             ctx.violation("chunk %s %s" % (kind, q(src)),
                           "golua answers %s for %s; %s" % (res, q(src), "a valid chunk must be accepted" if expect == "ok" else
-                                                           "the first token no valid chunk continues with is on line " + expect),
+                                                           "the first token no valid chunk continues with is on line " +
+                                                           (expect.split("@")[0] + " and is `" + bytes.fromhex(expect.split("@")[1]).decode("latin1") + "` (results read line@hex-of-token)"
+                                                            if "@" in expect else expect)),
                           "c12 replay chunk %s %s %s\nobserved %s\nexpected %s\n" % (expect, kind, srchex, res, want))
 
 
@@ -240,11 +272,12 @@ def run(ctx):
     if rc != 0:
         raise common.BuildError("c12 harness failed: " + err[-2000:])
     lines = out.split("\n")[:-1]
-    pairs = [l for l in lines if not l.startswith(("chunk ", "mvast "))]
+    pairs = [l for l in lines if not l.startswith(("chunk ", "mvast ", "fstat "))]
     chunks = [l for l in lines if l.startswith("chunk ")]
     run_pairs(ctx, pairs)
     run_chunks(ctx, chunks)
     run_mvast(ctx, [l for l in lines if l.startswith("mvast ")])
+    run_fstat(ctx, [l for l in lines if l.startswith("fstat ")])
     run_escape(ctx, h)
     run_literals(ctx)
     for l in pairs[:: max(1, len(pairs) // 8)][:8] + chunks[:: max(1, len(chunks) // 3)][:3]:
